@@ -1,7 +1,25 @@
 import gfapy
 
 class References:
+  def _check_segment_references(self):
+    # both sides are checked before anything is created or changed for one
+    # of them (placeholders of other lines would else be replaced by
+    # placeholder segments, also if the line is then refused)
+    for snum in [1, 2]:
+      ref = self.get("sid{}".format(snum))
+      if ref.orient not in ["+", "-"]:
+        raise gfapy.FormatError(
+          "Line: {}\n".format(str(self))+
+          "sid{} is not an oriented segment identifier".format(snum))
+      line = self._gfa.line(ref.line)
+      if line is not None and not line.virtual and line.record_type != "S":
+        raise gfapy.NotUniqueError(
+          "Line: {}\n".format(str(self))+
+          "sid{} is the identifier of a line of type {}".format(snum,
+            line.record_type))
+
   def _initialize_references(self):
+    self._check_segment_references()
     for snum in [1,2]:
       sid = "sid{}".format(snum)
       orient = self.get(sid).orient
